@@ -129,6 +129,14 @@ def r1(run, db):
         aws = [a for a in awaits(w) if any(c.bb == n.bb for c in a.future_calls())]
         run.check(len(aws) == 1, "await-same-notified", "the future awaited is the Notified created first", "the awaited future does not originate from the early notified() call", w.where())
         sts = [s for s in status_tests(w) if s["const"] == "Stopped" and s["op"] in ("!=", "==")]
+        if aws and len(sts) != 1:
+            # any other spelling of the same decision (`matches!(status, Stopped)`, `status < Stopped`, an early return):
+            # the await is reachable exactly for the statuses other than Stopped
+            gates = status_gates_at(w, aws[0].poll.site)
+            adm = admitted_statuses(gates)
+            run.check(bool(gates) and adm == STATUS_ORDER[:-1], "await-on-not-stopped", "the await is reachable exactly while the status read is not Stopped (%s)" % show_gates(gates),
+                      "the wait is entered for statuses %s" % adm, w.where())
+            continue
         run.check(len(sts) == 1, "stopped-test", "status compared with Stopped", "wait has %d comparisons with Stopped" % len(sts), w.where())
         if aws and sts:
             s = sts[0]
